@@ -78,7 +78,7 @@ SAN = " || thorough tier: the same workloads under ThreadSanitizer / AddressSani
 
 PLAN = {
     "C01": dict(
-        stages=[ls("C01"), ho("C01"), ga()],
+        stages=[ls("C01"), ls_async_quick("C01"), ho("C01"), ga()],
         rule=LS + " || " + HO + " || " + GA + " (after each race four more admissions under tight capacity: what is resident must still fit)",
         clauses=["policy observer log replayed step by step (emitted under the policy lock): used == sum of per-key charges at every add/update/remove/clear; "
                  "oversize never admitted; every admission of a new key leaves used <= max_cost; victims' costs == their charges; update delta == new - old; "
@@ -144,7 +144,7 @@ PLAN = {
         assumptions=["policy worker drained (kept == applied) before each add, so estimates are stable while the oracle reads them"],
     ),
     "C08": dict(
-        stages=[ho("C08", q=60), pairs(), ls("C08"), ga(), dict(engine="close", shards=dict(quick=2, thorough=8), args=["--quick-n", "320", "--thorough-n", "4000"]), tsan("hostile")],
+        stages=[ho("C08", q=60), pairs(), ls("C08"), ls_async_quick("C08"), ga(), dict(engine="close", shards=dict(quick=2, thorough=8), args=["--quick-n", "320", "--thorough-n", "4000"]), tsan("hostile")],
         rule=HO + " || " + LS + " || " + GA + SAN,
         clauses=["every accepted value: exactly one of {resident, on_exit, on_evict, on_reject, overwritten in place}", "none of them only if dropped inside a clear()/close() call",
                  "never two", "no look-up returns a value after its callback", "no value leaked after the cache and its workers are gone", "lockstep: callback kind matches the cause",
@@ -153,7 +153,7 @@ PLAN = {
         assumptions=["collision-free keys; no ValueRefMut::write (drops the replaced value in the caller by design)"],
     ),
     "C09": dict(
-        stages=[ls("C09", q=400), ho("C09", q=40), hammer(), ga()],
+        stages=[ls("C09", q=400), ls_async_quick("C09"), ho("C09", q=40), hammer(), ga()],
         rule=LS + "; validators: never / only-greater / new-id-even / value-dependent; Coster on",
         clauses=["insert_if_present on absent => false, no callback, cache unchanged", "on resident => update of value and cost", "vetoed insert / insert_with_ttl / insert_if_present: value and remaining TTL unchanged, still reclaimed at the old deadline",
                  "expired-but-unswept key: both outcomes accepted (the statement does not decide it)",
@@ -172,7 +172,7 @@ PLAN = {
         assumptions=["several writes to one key between two barriers are applied out of program order by design (updates at once, queued removes and first inserts later)"],
     ),
     "C11": dict(
-        stages=[ls("C11", q=400), ho("C11", q=60), ga(), tsan("hostile")],
+        stages=[ls("C11", q=400), ls_async_quick("C11"), ho("C11", q=60), ga(), tsan("hostile")],
         rule=LS + " || " + HO + " || " + GA + SAN,
         clauses=["after clear(): every key absent, len 0, used 0, counters zero, histogram empty", "afterwards exactly the fresh-cache model, incl. keys re-used with another TTL or none across their old expiry seconds",
                  "concurrent: nothing written before a completed clear() is returned afterwards; barrier clauses for inserts begun after clear() returned",
@@ -219,14 +219,14 @@ PLAN = {
         assumptions=["estimates are read through the hook between two stamps of the logical clock; a check is skipped when an Applied/Clear event falls between them"],
     ),
     "C16": dict(
-        stages=[ls("C16", q=400), dict(engine="types", shards=dict(quick=1, thorough=4))],
+        stages=[ls("C16", q=400), ls_async_quick("C16"), dict(engine="types", shards=dict(quick=1, thorough=4))],
         rule=LS + "; explicit costs 1..9, 2^31, 2^40, 2^62, i64::MAX and neighbours, max_cost +-1; Coster valuation when the cost is 0; ignore_internal_cost both ways",
         clauses=["per-key charge in the policy == explicit cost (or Coster value when 0) + item_size unless ignored", "updates re-charge", "Item.cost in on_evict / on_reject == charge", "cost metrics move by the same amounts (C17 clauses)"],
         minimum=dict(quick=dict(ls_histories=300, ls_updates=2000)),
         assumptions=["value type sizes: one value type (Tracked) at cache level; the overhead constant is the hook-reported item_size, required > 0 and identical for every insert"],
     ),
     "C17": dict(
-        stages=[ls("C17", q=400), ho("C17", q=40)],
+        stages=[ls("C17", q=400), ls_async_quick("C17"), ho("C17", q=40)],
         rule=LS + " (tight capacity: evictions and rejections occur) || " + HO,
         clauses=["hits + misses == look-ups made since the last clear (interval bounds when calls overlap a clear)", "keys_added - keys_evicted == charged entries", "cost_added - cost_evicted == used (wrapping)",
                  "sets_dropped == inserts that returned false", "sets_rejected == popularity rejections seen by the policy observer", "all zero after clear (a look-up made the instant clear() returned already counts in the new period)", "ratio() == hits/(hits+misses), also over windows with only hits, only misses, nothing (ratio scenarios on every flavour)",
